@@ -1,5 +1,5 @@
 /- all invariants of the C13 model hold in every reachable state -/
-import YaclibModel.Proofs.CoroE2
+import YaclibModel.Proofs.CoroE
 namespace Yaclib.Coro
 
 structure Full (w : Workload) (s : State) : Prop where
@@ -38,29 +38,8 @@ theorem full_step {w s l s'} (hwf : w.WF) (hwt : w.WFT) (h : Full w s) (hs : Ste
     | regLoad p x => exact invD_step_1 ha hd hs hf trivial
     | cas p o => exact invD_step_1 ha hd hs hf trivial
     | fire j p => exact invD_step_1 ha hd hs hf trivial
-  · cases l with
-    | envSwap j e => exact invE_step_2 hwt hi he hs trivial
-    | start => exact invE_step_2 hwt hi he hs trivial
-    | cas p o => exact invE_step_2 hwt hi he hs trivial
-    | tstore => exact invE_step_2 hwt hi he hs trivial
-    | fire j p => exact invE_step_2 hwt hi he hs trivial
-    | resume g a => exact invE_step_2 hwt hi he hs trivial
-    | pXchg j => exact invE_step_1 ha he hs trivial
-    | envPush j => exact invE_step_1 ha he hs trivial
-    | exCall => exact invE_step_1 ha he hs trivial
-    | exDrop => exact invE_step_1 ha he hs trivial
-    | ldtor => exact invE_step_1 ha he hs trivial
-    | ret => exact invE_step_1 ha he hs trivial
-    | publish r => exact invE_step_1 ha he hs trivial
-    | fdtor => exact invE_step_1 ha he hs trivial
-    | rdLoad x => exact invE_step_1 ha he hs trivial
-    | mload v => exact invE_step_1 ha he hs trivial
-    | ready b => exact invE_step_1 ha he hs trivial
-    | msub => exact invE_step_1 ha he hs trivial
-    | msuspend => exact invE_step_1 ha he hs trivial
-    | regLoad p x => exact invE_step_1 ha he hs trivial
-    | submit e => exact invE_step_1 ha he hs trivial
-    | current e => exact invE_step_1 ha he hs trivial
+    | tdtor j => exact invD_step_1 ha hd hs hf trivial
+  · exact invE_step hwt hi he hs
 
 theorem full_reachable {w s} (hwf : w.WF) (hwt : w.WFT) (h : Reachable w s) : Full w s := by
   induction h with
